@@ -633,6 +633,12 @@ func genCase(rt *rapid.T) tcase {
 			c.History = append(c.History, h)
 		}
 	}
+	if c.UnscopedVia == "dropped" && len(c.Calls) > 0 {
+		// the direct use only: a Session{} / WithContext right behind Session{NewDB}
+		// re-clones the unscoped statement (undocumented). Done last, because the
+		// paths above may have dropped the call that was first.
+		c.Calls[0].Pre = ""
+	}
 	return c
 }
 
